@@ -271,6 +271,18 @@ def check_case(case, ctx=None):
                     'events after everything ended: %r' % (h.log.events[n_ev:],), rep)
         if not do_connect('final'):
             raise V(impl, 'reconnect-failed', ftrig, 'connect() after the end failed', rep)
+        # ... and the new connection works: a send arrives, the heartbeat is answered
+        if not ih:
+            n_srv = len(h.world.app_log.events)
+            h.client_call('send', 'after-reconnect')
+            h.advance(I + T + 1)
+            got = [a for _, e, _, a in h.world.app_log.events[n_srv:] if e == 'message']
+            srv_disc = [a for _, e, _, a in h.world.app_log.events[n_srv:] if e == 'disconnect']
+            if got != ['after-reconnect'] or srv_disc or cl.state != 'connected':
+                raise V(impl, 'reconnected-client-not-working',
+                        '%s|%s' % ('send-lost' if got != ['after-reconnect'] else 'dropped', ftrig),
+                        'after reconnecting: server got %r, server-side disconnects %r, client '
+                        'state %r' % (got, srv_disc, cl.state), rep)
         if ctx:
             fired = [f['kind'] for f in h.faults.fired]
             nt = bool(fired) or bool(fired_ih) or cycles >= 2
